@@ -815,4 +815,99 @@ example :
   refine ⟨by decide, by decide, ?_⟩
   exact List.Perm.swap _ _ _
 
+/-! ### w26 — C13 composed with the JS-facing `lint`: ONE theorem about what a `lint` call returns
+
+`lintCore_spec` gives disjointness and "members of `raw`"; `returned_sublist_of_raw` gives a sub-list of SOME
+permutation. The strong C13 theorems (`removeOverlaps_sublist_isort`, `isort_key_sorted`, `isort_stable`,
+`kept_or_starts_inside_kept`) were not carried through `dedup` / `lintCore` / `step`. Below they are: `sortedRaw raw`
+(`Lemmas/Wasm.lean`) is THE stable sort of the group's lints by `(start, !0 - end)` (`sortedRaw_perm`,
+`sortedRaw_sorted`, `sortedRaw_stable`). -/
+
+/-- **What `Linter::lint` (JS API) returns, from every state.** If the dictionary in force selects the alternative `a`
+whose raw lints (the group's output) point into the text, the call returns a list `ls` (no panic, state unchanged) and
+* `ls` is a SUB-LIST of the group's lints in `remove_overlaps`' stable sort order — nothing invented, altered, or
+  reordered beyond that sort;
+* `ls` is pairwise disjoint (`x.end ≤ y.start` for `x` before `y`) and every lint is in range, none of them ignored;
+* nothing is lost silently: every lint of the group is returned, or is ignored, or starts inside a lint that
+  `remove_overlaps` kept (which may itself have been ignored afterwards — `remove_overlaps` runs BEFORE `remove_ignored`). -/
+theorem lint_returns_disjoint_sublist_of_group (s : State) (text : List Nat) (lang : Nat) (alts : List Alt) (a : Alt)
+    (hpick : pickAlt s.synced alts = some a) (hok : RawOK text a) :
+    ∃ ls, step s (.lint text lang alts) = (s, .lints ls) ∧
+      (ls.map (·.lint)).Sublist (sortedRaw a.raw) ∧
+      ls.Pairwise (fun x y => x.lint.stop ≤ y.lint.start) ∧
+      (∀ w ∈ ls, w.lint.start ≤ w.lint.stop ∧ w.lint.stop ≤ text.length ∧ contextOf w.lint a.toks ∉ s.ignored) ∧
+      (∀ d ∈ a.raw, d ∈ ls.map (·.lint) ∨ contextOf d a.toks ∈ s.ignored ∨
+        ∃ k ∈ dedup a.raw, k.start ≤ d.start ∧ d.start < k.stop) := by
+  obtain ⟨ls, hls, hmap, hin, hdis, _⟩ := lintCore_spec s.ignored text lang a.raw a.toks hok
+  have hstep : step s (.lint text lang alts) = (s, .lints ls) := by simp only [step, hpick, hls]
+  refine ⟨ls, hstep, ?_, hdis, ?_, ?_⟩
+  · rw [hmap]
+    exact List.filter_sublist.trans (dedup_sublist_sortedRaw a.raw)
+  · intro w hw
+    refine ⟨(hin w hw).2.1, (hin w hw).2.2, ?_⟩
+    have : w.lint ∈ (dedup a.raw).filter (fun l => decide (contextOf l a.toks ∉ s.ignored)) := by
+      rw [← hmap]; exact List.mem_map_of_mem hw
+    simpa using (List.mem_filter.mp this).2
+  · intro d hd
+    rcases dedup_kept_or_covered a.raw d hd with hk | hc
+    · by_cases hig : contextOf d a.toks ∈ s.ignored
+      · exact Or.inr (Or.inl hig)
+      · refine Or.inl ?_
+        rw [hmap]
+        exact List.mem_filter.mpr ⟨hk, by simpa using hig⟩
+    · exact Or.inr (Or.inr hc)
+
+/-- non-vacuity: `abcdef gh`, the group hands over `[C, B, A']` (C = 7..9, B = 3..6 overlapping A' = 0..5); stably sorted
+that is `[A', B, C]`; after `ignore C` the call returns `[A']`: B starts inside the kept A', C is ignored -/
+example : sortedRaw [Wit.C, Wit.B, Wit.A'] = [Wit.A', Wit.B, Wit.C] ∧ dedup [Wit.C, Wit.B, Wit.A'] = [Wit.A', Wit.C] := by
+  decide
+
+example :
+    let s := (step init (.ignore Wit.C Wit.altsC)).1
+    ∃ ls, step s (.lint Wit.textC 0 Wit.altsC) = (s, .lints ls) ∧
+      (ls.map (·.lint)).Sublist (sortedRaw [Wit.C, Wit.B, Wit.A']) ∧
+      ls.Pairwise (fun x y => x.lint.stop ≤ y.lint.start) ∧
+      (∀ w ∈ ls, w.lint.start ≤ w.lint.stop ∧ w.lint.stop ≤ Wit.textC.length ∧
+        contextOf w.lint Wit.toksC ∉ s.ignored) ∧
+      (∀ d ∈ [Wit.C, Wit.B, Wit.A'], d ∈ ls.map (·.lint) ∨ contextOf d Wit.toksC ∈ s.ignored ∨
+        ∃ k ∈ dedup [Wit.C, Wit.B, Wit.A'], k.start ≤ d.start ∧ d.start < k.stop) :=
+  lint_returns_disjoint_sublist_of_group _ Wit.textC 0 Wit.altsC ⟨[], [Wit.C, Wit.B, Wit.A'], Wit.toksC⟩
+    (by decide) (by decide)
+
+/-- the third disjunct is needed as stated (`k ∈ dedup`, not `k` returned): ignoring A' hides A' AND leaves B hidden —
+B starts inside A', which `remove_overlaps` kept and `remove_ignored` then removed; neither is returned -/
+example :
+    (step (step init (.ignore Wit.A' Wit.altsC)).1 (.lint Wit.textC 0 Wit.altsC)).2
+      = .lints [⟨Wit.C, [103, 104], 0⟩] := by decide
+
+/-- clause "pairwise disjoint and a sub-list of the group's, in its sort order", of one call -/
+def DisjointSublistOfGroup : Op → Out → Prop
+  | .lint text _ alts, out =>
+    (∀ a ∈ alts, RawOK text a) →
+      out = .noAlt ∨ ∃ ls, out = .lints ls ∧ ls.Pairwise (fun x y => x.lint.stop ≤ y.lint.start) ∧
+        ∃ a ∈ alts, (ls.map (·.lint)).Sublist (sortedRaw a.raw)
+  | _, _ => True
+
+/-- … over every call of every sequence of calls, from every state -/
+theorem lints_disjoint_sublist_of_group (s : State) (ops : List Op) :
+    AllCalls DisjointSublistOfGroup s ops := by
+  apply run_forall₂
+  intro s op
+  cases op with
+  | lint text lang alts =>
+    intro hok
+    cases hp : pickAlt s.synced alts with
+    | none => exact Or.inl (by simp only [step, hp])
+    | some a =>
+      have hm : a ∈ alts := List.mem_of_find?_eq_some hp
+      obtain ⟨ls, hstep, hsub, hdis, _, _⟩ :=
+        lint_returns_disjoint_sublist_of_group s text lang alts a hp (hok a hm)
+      exact Or.inr ⟨ls, by rw [hstep], hdis, a, hm, hsub⟩
+  | _ => trivial
+
+/-- non-vacuity: a three-call history with two `lint` calls around an `ignore` -/
+example : AllCalls DisjointSublistOfGroup init
+    [.lint Wit.textC 0 Wit.altsC, .ignore Wit.C Wit.altsC, .lint Wit.textC 0 Wit.altsC] :=
+  lints_disjoint_sublist_of_group _ _
+
 end Harper.C16
